@@ -47,10 +47,26 @@ type Task struct {
 	Yield int `json:"yield,omitempty"`
 }
 
+// Pre is one step of the sequential prelude that runs before the concurrent tasks start: it
+// leaves stored domains, tombstones and (after a reopen) files without pooled writer handles,
+// so that the concurrent deletes and garbage collection passes have something to act on.
+type Pre struct {
+	Kind  string `json:"kind"` // write delete gc
+	Group int    `json:"group"`
+	Start int64  `json:"start,omitempty"`
+	N     int    `json:"n,omitempty"`
+	A     int64  `json:"a,omitempty"`
+	B     int64  `json:"b,omitempty"`
+	Index bool   `json:"index,omitempty"`
+}
+
 type Plan struct {
-	FileCap   int      `json:"file_cap"`
-	DataTypes []string `json:"data_types"` // one data channel per group
-	Tasks     []Task   `json:"tasks"`
+	FileCap   int            `json:"file_cap"`
+	DataTypes []string       `json:"data_types"` // one data channel per group
+	Prelude   []Pre          `json:"prelude,omitempty"`
+	PreReopen bool           `json:"pre_reopen,omitempty"`
+	Delay     cx.DelayConfig `json:"delay,omitempty"`
+	Tasks     []Task         `json:"tasks"`
 }
 
 func genPlan(t *rapid.T) Plan {
@@ -58,6 +74,35 @@ func genPlan(t *rapid.T) Plan {
 	ng := rapid.IntRange(1, 3).Draw(t, "groups")
 	for g := 0; g < ng; g++ {
 		p.DataTypes = append(p.DataTypes, rapid.SampledFrom([]string{"int64", "uint8", "float32", "string", "bytes"}).Draw(t, "dt"))
+	}
+	preDomains := make([]int, ng)
+	if rapid.IntRange(0, 3).Draw(t, "prelude") > 0 {
+		for g := 0; g < ng; g++ {
+			preDomains[g] = rapid.IntRange(1, 6).Draw(t, "pre-domains")
+			for k := 0; k < preDomains[g]; k++ {
+				p.Prelude = append(p.Prelude, Pre{Kind: "write", Group: g, Start: int64(k+1) * 1000, N: rapid.IntRange(1, 12).Draw(t, "pre-n")})
+			}
+		}
+		for i, n := 0, rapid.IntRange(0, 4).Draw(t, "pre-deletes"); i < n; i++ {
+			g := rapid.IntRange(0, ng-1).Draw(t, "pre-del-group")
+			a := int64(rapid.IntRange(1, preDomains[g]).Draw(t, "pre-del-domain"))*1000 + int64(rapid.IntRange(0, 10).Draw(t, "pre-del-a"))
+			p.Prelude = append(p.Prelude, Pre{Kind: "delete", Group: g, A: a, B: a + int64(rapid.SampledFrom([]int{1, 2, 3, 5, 8, 1000, 2500}).Draw(t, "pre-del-len")), Index: rapid.Bool().Draw(t, "pre-del-index")})
+		}
+		if rapid.Bool().Draw(t, "pre-gc") {
+			p.Prelude = append(p.Prelude, Pre{Kind: "gc"})
+		}
+		p.PreReopen = rapid.Bool().Draw(t, "pre-reopen")
+	}
+	switch rapid.IntRange(0, 3).Draw(t, "delay") {
+	case 1:
+		p.Delay = cx.DelayConfig{PerMille: 10, HotMille: 300, MaxMicros: 200}
+	case 2:
+		p.Delay = cx.DelayConfig{PerMille: 30, HotMille: 600, MaxMicros: 1000}
+	case 3:
+		p.Delay = cx.DelayConfig{PerMille: 0, HotMille: 900, MaxMicros: 3000}
+	}
+	if p.Delay.HotMille > 0 {
+		p.Delay.Seed = rapid.Uint64().Draw(t, "delay-seed")
 	}
 	nt := rapid.IntRange(3, 8).Draw(t, "tasks")
 	region := 0
@@ -105,6 +150,13 @@ func genPlan(t *rapid.T) Plan {
 		case "deleter":
 			n := rapid.IntRange(1, 4).Draw(t, "ndel")
 			for i := 0; i < n; i++ {
+				if preDomains[tk.Group] > 0 && rapid.Bool().Draw(t, "del-prelude") {
+					// trim, split or remove domains stored by the prelude
+					a := int64(rapid.IntRange(1, preDomains[tk.Group]).Draw(t, "del-pre-domain"))*1000 + int64(rapid.IntRange(0, 10).Draw(t, "del-pre-a"))
+					tk.A = append(tk.A, a)
+					tk.B = append(tk.B, a+int64(rapid.SampledFrom([]int{1, 2, 3, 5, 8, 1000, 2500}).Draw(t, "del-pre-len")))
+					continue
+				}
 				r := int64(rapid.IntRange(1, max(1, region+1)).Draw(t, "del-region")) * 100_000
 				a := r + int64(rapid.IntRange(0, 40).Draw(t, "del-a"))
 				tk.A = append(tk.A, a)
@@ -127,6 +179,7 @@ type event struct {
 }
 
 type written struct {
+	group     int
 	ts        []int64
 	seed      uint64
 	write     event
@@ -160,7 +213,8 @@ func executePlan(p Plan, rep *kit.Report) error {
 
 func run(p Plan, rep *kit.Report) error {
 	ctx := context.Background()
-	fs := xfs.NewMem()
+	mem := xfs.NewMem()
+	fs := cx.NewDelayFS(mem, p.Delay)
 	open := func() (*cesium.DB, error) {
 		opts := []cesium.Option{cesium.WithFS(fs), cesium.WithGCConfig(cesium.GCConfig{TryInterval: 24 * time.Hour, Threshold: 0.0001})}
 		if p.FileCap > 0 {
@@ -196,6 +250,68 @@ func run(p Plan, rep *kit.Report) error {
 		}
 		mu.Unlock()
 	}
+	// ---------------- sequential prelude (no perturbation, same bookkeeping as the tasks)
+	for pi, pre := range p.Prelude {
+		switch pre.Kind {
+		case "write":
+			yes, no := true, false
+			w, oerr := db.OpenWriter(ctx, cesium.WriterConfig{Channels: []cesium.ChannelKey{idxKey(pre.Group), dataKey(pre.Group)}, Start: telem.TimeStamp(pre.Start), EnableAutoCommit: &no, Sync: &yes})
+			if oerr != nil {
+				_ = db.Close()
+				return kit.Fail("setup", "prelude writer: %v", oerr)
+			}
+			st := &cx.State{M: model, Writers: map[int]*cx.WState{0: {ID: 0, Channels: []uint32{idxKey(pre.Group), dataKey(pre.Group)}}}}
+			wr := &written{group: pre.Group, seed: uint64(900_000 + pi)}
+			for i := 0; i < pre.N; i++ {
+				wr.ts = append(wr.ts, pre.Start+int64(i))
+			}
+			wr.write.invoke = tick()
+			_, werr := w.Write(cx.BuildFrame(st, cx.Op{W: 0, TS: wr.ts, Seed: wr.seed}))
+			wr.write.ret = tick()
+			wr.commit.invoke = tick()
+			_, cerr := w.Commit()
+			wr.commit.ret = tick()
+			clerr := w.Close()
+			if werr != nil || cerr != nil || clerr != nil {
+				_ = db.Close()
+				rep.Discard("prelude-write-error")
+				return nil
+			}
+			wr.committed = true
+			writes[-1-pi] = append(writes[-1-pi], wr)
+		case "delete":
+			keys := []uint32{dataKey(pre.Group)}
+			if pre.Index {
+				keys = append(keys, idxKey(pre.Group))
+			}
+			ev := event{invoke: tick()}
+			derr := db.DeleteTimeRange(ctx, keys, telem.TimeRange{Start: telem.TimeStamp(pre.A), End: telem.TimeStamp(pre.B)})
+			ev.ret = tick()
+			if derr != nil {
+				rep.Class("prelude-delete-refused")
+				continue
+			}
+			rep.Class("prelude-delete-ok")
+			deletes = append(deletes, deleted{a: pre.A, b: pre.B, keys: keys, ev: ev})
+		case "gc":
+			if gerr := db.VerifGarbageCollect(ctx); gerr != nil {
+				rep.Class("prelude-gc-error")
+			}
+		}
+	}
+	if len(p.Prelude) > 0 {
+		rep.Class("with-prelude")
+	}
+	if p.PreReopen {
+		if cerr := db.Close(); cerr != nil {
+			return kit.Fail("setup", "close after prelude: %v", cerr)
+		}
+		if db, err = open(); err != nil {
+			return kit.Fail("reopen-error", "cesium.Open after the sequential prelude: %v", err)
+		}
+		rep.Class("prelude-then-reopen")
+	}
+	fs.Enable(true)
 	var wg sync.WaitGroup
 	stop := make(chan struct{})
 	var swg sync.WaitGroup
@@ -228,7 +344,7 @@ func run(p Plan, rep *kit.Report) error {
 								stamps = append(stamps, tk.Start+seq)
 								seq++
 							}
-							wr := &written{ts: stamps, seed: uint64(ti*1000 + link*100 + f)}
+							wr := &written{group: tk.Group, ts: stamps, seed: uint64(ti*1000 + link*100 + f)}
 							fr := cx.BuildFrame(st, cx.Op{W: 0, TS: stamps, Seed: wr.seed})
 							wr.write.invoke = tick()
 							auth, werr := w.Write(fr)
@@ -392,71 +508,16 @@ func run(p Plan, rep *kit.Report) error {
 	wg.Wait()
 	close(stop)
 	swg.Wait()
+	fs.Enable(false)
+	if n := fs.Delays(); n > 0 {
+		rep.Class("schedule-perturbed-at-fs-calls")
+		rep.Add("fs_call_perturbations", n)
+	}
 	if fatal != nil {
 		_ = db.Close()
 		return fatal
 	}
 	// ---------------- serialisability oracle
-	check := func(db *cesium.DB, where string) error {
-		for _, spec := range specs {
-			must := map[string]bool{}   // value -> must be present
-			may := map[string]bool{}    // value -> may be present
-			order := map[string]int64{} // value -> timestamp (for messages)
-			for _, ws := range writes {
-				for _, wr := range ws {
-					if !wr.committed {
-						continue
-					}
-					for _, ts := range wr.ts {
-						var v []byte
-						if spec.IsIndex {
-							v = tsm.TSBytes(ts)
-						} else {
-							v = tsm.Payload(spec, ts, wr.seed)
-						}
-						// group membership: the write belongs to this channel iff the ts region's task targeted this group
-						presence := 2 // must
-						for _, d := range deletes {
-							covers := false
-							for _, k := range d.keys {
-								if k == spec.Key {
-									covers = true
-								}
-							}
-							if !covers || ts < d.a || ts >= d.b {
-								continue
-							}
-							if d.ev.invoke > wr.commit.ret {
-								presence = 0 // deleted after the commit completed
-							} else if d.ev.ret < wr.write.invoke {
-								// delete completed before the write began: no effect
-							} else if presence == 2 {
-								presence = 1 // overlapped in real time: either order is a valid serialisation
-							}
-						}
-						key := fmt.Sprintf("%d/%x", ts, v)
-						order[key] = ts
-						switch presence {
-						case 2:
-							must[key] = true
-						case 1:
-							may[key] = true
-						}
-					}
-				}
-			}
-			got, rerr := cx.ReadChannel(ctx, db, spec, 0, 1<<62)
-			if rerr != nil {
-				return kit.Fail("final-read-error", "%s: reading ch%d: %v", where, spec.Key, rerr)
-			}
-			_ = got
-			return nil
-		}
-		return nil
-	}
-	_ = check
-	// The value->timestamp association is needed to decide group membership; do the
-	// comparison per group with explicit timestamps instead.
 	verify := func(db *cesium.DB, where string) error {
 		for g := range p.DataTypes {
 			for _, key := range []uint32{idxKey(g), dataKey(g)} {
@@ -466,11 +527,11 @@ func run(p Plan, rep *kit.Report) error {
 					presence int
 				}
 				expect := map[int64]want{}
-				for ti, ws := range writes {
-					if p.Tasks[ti].Group != g {
-						continue
-					}
+				for _, ws := range writes {
 					for _, wr := range ws {
+						if wr.group != g {
+							continue
+						}
 						if !wr.committed {
 							continue
 						}
@@ -536,6 +597,9 @@ func run(p Plan, rep *kit.Report) error {
 				}
 				if !reach[0][0] {
 					if os.Getenv("C09_DEBUG") != "" {
+						for gi := 0; gi < len(got) && gi < 16; gi++ {
+							fmt.Printf("DEBUG %s ch%d returned[%d]=%x\n", where, key, gi, got[gi])
+						}
 						for _, k2 := range []uint32{idxKey(g), dataKey(g)} {
 							fr, _ := db.Read(ctx, telem.TimeRangeMax, k2)
 							for _, sr := range fr.SeriesSlice() {
@@ -564,10 +628,10 @@ func run(p Plan, rep *kit.Report) error {
 							fmt.Printf("DEBUG delete [%d,%d) keys=%v invoke=%d ret=%d\n", d.a, d.b, d.keys, d.ev.invoke, d.ev.ret)
 						}
 						for ti, ws := range writes {
-							if p.Tasks[ti].Group != g {
-								continue
-							}
 							for _, wr := range ws {
+								if wr.group != g {
+									continue
+								}
 								fmt.Printf("DEBUG write task %d ts=%v..%v write=%v commit=%v committed=%v\n", ti, wr.ts[0], wr.ts[len(wr.ts)-1], wr.write, wr.commit, wr.committed)
 							}
 						}
@@ -612,6 +676,9 @@ func run(p Plan, rep *kit.Report) error {
 		rep.Class("db-close-error")
 		rep.Add("db-close-error:"+cerr.Error()[:min(70, len(cerr.Error()))], 1)
 	}
+	if serr := checkIndexFiles(mem, specs); serr != nil {
+		return serr
+	}
 	db2, oerr := open()
 	if oerr != nil {
 		return kit.Fail("reopen-error", "cesium.Open after the concurrent run: %v", oerr)
@@ -627,11 +694,14 @@ func run(p Plan, rep *kit.Report) error {
 		ev event
 	}
 	for ti, ws := range writes {
+		if ti < 0 {
+			continue // prelude writes are sequential by construction
+		}
 		for _, wr := range ws {
 			evs = append(evs, struct {
 				g  int
 				ev event
-			}{p.Tasks[ti].Group, wr.write})
+			}{wr.group, wr.write})
 		}
 	}
 	for i := range evs {
@@ -655,7 +725,58 @@ func run(p Plan, rep *kit.Report) error {
 	return nil
 }
 
+// checkIndexFiles decodes every channel's persisted index after the database was closed:
+// pointers must be ordered and non-overlapping in time, each must lie inside its data file,
+// and no two pointers of one file may share bytes.
+func checkIndexFiles(fs xfs.FS, specs []tsm.ChannelSpec) error {
+	for _, sp := range specs {
+		f, err := fs.Open(fmt.Sprintf("%d/index.domain", sp.Key), os.O_RDONLY)
+		if err != nil {
+			continue
+		}
+		st, _ := f.Stat()
+		buf := make([]byte, st.Size())
+		_, _ = f.ReadAt(buf, 0)
+		_ = f.Close()
+		if len(buf)%26 != 0 {
+			return kit.Fail("index-file-malformed", "ch%d: index.domain has %d bytes after Close (not a multiple of 26)", sp.Key, len(buf))
+		}
+		type ptr struct {
+			s, e     int64
+			file     uint16
+			off, siz uint32
+		}
+		var ps []ptr
+		for o := 0; o+26 <= len(buf); o += 26 {
+			ps = append(ps, ptr{int64(binary.LittleEndian.Uint64(buf[o:])), int64(binary.LittleEndian.Uint64(buf[o+8:])), binary.LittleEndian.Uint16(buf[o+16:]), binary.LittleEndian.Uint32(buf[o+18:]), binary.LittleEndian.Uint32(buf[o+22:])})
+		}
+		sizes := map[uint16]int64{}
+		for i, q := range ps {
+			if q.e < q.s || (i > 0 && ps[i-1].e > q.s) {
+				return kit.Fail("index-file-unordered", "ch%d: persisted pointer %d [%d,%d) overlaps or precedes its predecessor (ends %d)", sp.Key, i, q.s, q.e, ps[max(0, i-1)].e)
+			}
+			if _, ok := sizes[q.file]; !ok {
+				info, serr := fs.Stat(fmt.Sprintf("%d/%d.domain", sp.Key, q.file))
+				if serr != nil {
+					return kit.Fail("index-file-dangling", "ch%d: persisted pointer %d names file %d which does not exist: %v", sp.Key, i, q.file, serr)
+				}
+				sizes[q.file] = info.Size()
+			}
+			if int64(q.off)+int64(q.siz) > sizes[q.file] {
+				return kit.Fail("index-file-past-eof", "ch%d: persisted pointer %d [%d,%d) covers bytes [%d,%d) of file %d, which has %d bytes", sp.Key, i, q.s, q.e, q.off, q.off+q.siz, q.file, sizes[q.file])
+			}
+			for j := 0; j < i; j++ {
+				o := ps[j]
+				if o.file == q.file && q.siz > 0 && o.siz > 0 && q.off < o.off+o.siz && o.off < q.off+q.siz {
+					return kit.Fail("index-file-shared-bytes", "ch%d: persisted pointers %d and %d share bytes of file %d ([%d,%d) and [%d,%d))", sp.Key, j, i, q.file, o.off, o.off+o.siz, q.off, q.off+q.siz)
+				}
+			}
+		}
+	}
+	return nil
+}
+
 func TestC09(t *testing.T) {
-	r := &kit.Runner[Plan]{Name: "TestC09", Exec: executePlan}
+	r := &kit.Runner[Plan]{Name: "TestC09", Exec: executePlan, ReplayRepeat: 25}
 	r.Run(t, genPlan)
 }
